@@ -335,6 +335,15 @@ static OrcProgram *fixed_program(const std::string &which) {
   } else if (which == "accl") {
     p = orc_program_new_as(4, 4);
     orc_program_append_str(p, "accl", "a1", "s1", nullptr);
+  } else if (which == "acc2") {
+    // two accumulators (the second one is what a wrapper's uninitialised executor leaves garbage in)
+    p = orc_program_new();
+    orc_program_add_source(p, 2, "s1");
+    orc_program_add_source(p, 4, "s2");
+    orc_program_add_accumulator(p, 2, "a1");
+    orc_program_add_accumulator(p, 4, "a2");
+    orc_program_append_str(p, "accw", "a1", "s1", nullptr);
+    orc_program_append_str(p, "accl", "a2", "s2", nullptr);
   } else {  // copyb
     p = orc_program_new_ds(1, 1);
     orc_program_append_str(p, "copyb", "d1", "s1", nullptr);
@@ -484,6 +493,7 @@ void run_with(OrcProgram *prog, OrcCode *code, const ProgMeta &meta, RunMode mod
 // advanced by the harness, accumulators added up by the harness), so that the reference does not depend on how
 // the emulator itself walks rows.
 void reference_emulate(OrcProgram *twin, const ProgMeta &meta, RunData &d) {
+  d.exstyle = 0;   // the reference always starts from a zeroed, properly bound executor
   if (!meta.is_2d || d.m <= 1) { run_with_row(twin, nullptr, meta, RUN_EMULATE, d, -1); return; }
   unsigned total[4] = {0, 0, 0, 0};
   for (int row = 0; row < d.m; row++) {
